@@ -1,0 +1,101 @@
+//! Guarded hooks for deterministic simulation (cargo feature `verif-hooks`).
+//!
+//! Nothing in here is compiled unless the feature is on, and with the feature
+//! on every wrapper falls through to the std behaviour until a harness calls
+//! [`install`]. The harness in `/verif/sim` implements [`Hooks`] to own the
+//! interleaving of the caller thread and the `FlushWorker` thread.
+
+use std::sync::OnceLock;
+use std::sync::mpsc::Receiver;
+use std::sync::mpsc::RecvError;
+use std::sync::mpsc::TryRecvError;
+
+pub trait Hooks: Sync + Send {
+    /// True if the calling thread is scheduled by the harness.
+    fn managed(&self) -> bool;
+    /// A point where the scheduler may switch to another thread.
+    fn yield_point(&self, site: &'static str);
+    /// The calling thread cannot make progress until another thread does.
+    fn blocked(&self, site: &'static str);
+    /// Called by a parent before spawning a thread; returns a token.
+    fn spawn_begin(&self) -> u64;
+    /// Called by the parent after spawning; returns when the child is parked.
+    fn spawn_end(&self, child: u64);
+    /// First call in a spawned thread.
+    fn thread_enter(&self, child: u64);
+    /// Last call in a spawned thread (also on unwind).
+    fn thread_exit(&self);
+    /// A tuning constant the harness may override.
+    fn knob(&self, name: &'static str, default: usize) -> usize;
+}
+
+static HOOKS: OnceLock<&'static dyn Hooks> = OnceLock::new();
+
+pub fn install(h: &'static dyn Hooks) {
+    let _ = HOOKS.set(h);
+}
+
+fn get() -> Option<&'static dyn Hooks> {
+    HOOKS.get().copied().filter(|h| h.managed())
+}
+
+pub fn yield_point(site: &'static str) {
+    if let Some(h) = get() {
+        h.yield_point(site)
+    }
+}
+
+pub fn spawn_begin() -> u64 {
+    get().map(|h| h.spawn_begin()).unwrap_or(u64::MAX)
+}
+
+pub fn spawn_end(child: u64) {
+    if child == u64::MAX {
+        return;
+    }
+    if let Some(h) = HOOKS.get() {
+        h.spawn_end(child)
+    }
+}
+
+pub fn knob(name: &'static str, default: usize) -> usize {
+    get().map(|h| h.knob(name, default)).unwrap_or(default)
+}
+
+pub struct ThreadGuard(bool);
+
+pub fn thread_enter(child: u64) -> ThreadGuard {
+    if child == u64::MAX {
+        return ThreadGuard(false);
+    }
+    if let Some(h) = HOOKS.get() {
+        h.thread_enter(child)
+    }
+    ThreadGuard(true)
+}
+
+impl Drop for ThreadGuard {
+    fn drop(&mut self) {
+        if !self.0 {
+            return;
+        }
+        if let Some(h) = HOOKS.get() {
+            h.thread_exit()
+        }
+    }
+}
+
+/// `Receiver::recv` that never blocks in the kernel on a managed thread: it
+/// polls and reports `blocked` to the scheduler while the channel is empty.
+pub fn recv<T>(rx: &Receiver<T>) -> Result<T, RecvError> {
+    let Some(h) = get() else {
+        return rx.recv();
+    };
+    loop {
+        match rx.try_recv() {
+            Ok(v) => return Ok(v),
+            Err(TryRecvError::Disconnected) => return Err(RecvError),
+            Err(TryRecvError::Empty) => h.blocked("worker_recv"),
+        }
+    }
+}
